@@ -294,6 +294,9 @@ public:
          // If inflate() generated some inflated bytes, write them out to the destInflatedIO
          const int32 numBytesProduced = (int32)(_inflater.next_out-scratchOutBuf.GetBuffer());
          if (numBytesProduced > 0) MRETURN_ON_ERROR(destInflatedIO.WriteFully(scratchOutBuf.GetBuffer(), numBytesProduced));
+
+         // Once the deflated stream has ended, inflate() won't produce any more bytes, so there's no point in calling it again
+         if ((zRet == Z_STREAM_END)&&(_inflater.total_out < (uint32)numBytesToBeWritten)) return B_BAD_DATA;
       }
       return B_NO_ERROR;
    }
